@@ -97,7 +97,7 @@ func (netWorld) Gen(prop, tier string, idx int, r *Rng) *Trace {
 		return &Trace{World: "W-NET", Cfg: cj, Ops: ops}
 	}
 	nAtt := r.Range(2, 5)
-	fams := []string{"p1", "p2", "p1", "p2", "xp2"}
+	fams := []string{"p1", "p2", "p1", "p2", "xp2", "xw"}
 	for i := 0; i < nAtt; i++ {
 		a := NetAttester{Signer: genSignerSpec(r, prop == "C02" && tier == "quick"), ViaSetters: r.Chance(1, 3)}
 		if i > 0 && r.Chance(1, 3) {
